@@ -163,6 +163,8 @@ class OrderTyper:
                             root = U.chain(tg)
                             if root and root[0] != 'self' and self.env.get(root[0], NONE) == ALPHA:
                                 continue
+                            if self._name_addressed(st, tg):
+                                continue
                             self.problems.append((st, f'an alphabetically ordered value is stored without conversion to the user order: {U.src(st)[:90]}'))
                 # result tuples
                 if isinstance(st.value, ast.Call) and (U.call_name(st.value) or '').endswith(('Output', 'Data')):
@@ -189,6 +191,19 @@ class OrderTyper:
                 self.ty(st.value)
         return self.problems
 
+    def _name_addressed(self, st, tg):
+        """target[key(e)] = value[i] inside `for i, e in enumerate(..)`: the entry is addressed by the element the index
+        belongs to (a pycalphad condition dictionary), so no order conversion is involved"""
+        for loop in ast.walk(self.f):
+            if isinstance(loop, ast.For) and any(n is st for n in ast.walk(loop)) and isinstance(loop.iter, ast.Call) \
+                    and U.call_name(loop.iter) == 'enumerate' and isinstance(loop.target, ast.Tuple) and len(loop.target.elts) == 2 \
+                    and all(isinstance(x, ast.Name) for x in loop.target.elts):
+                i, e = loop.target.elts[0].id, loop.target.elts[1].id
+                v = st.value
+                if e in U.names_in(tg.slice) and isinstance(v, ast.Subscript) and isinstance(v.slice, ast.Name) and v.slice.id == i:
+                    return True
+        return False
+
     def _ordered(self, body):
         for st in body:
             if isinstance(st, (ast.If, ast.For, ast.While, ast.With, ast.Try)):
@@ -203,11 +218,49 @@ class OrderTyper:
                 yield st
 
 
+def _elements_slice(a):
+    if isinstance(a, ast.Subscript) and U.chain(a.value) and U.chain(a.value)[-1] == 'elements':
+        return a
+    if isinstance(a, ast.Attribute) and U.chain(a) and U.chain(a)[-1] == 'elements':
+        return ast.Subscript(value=a, slice=ast.Slice(lower=None, upper=None, step=None), ctx=ast.Load())
+    return None
+
+
+def _hoist_anonymous_unsorts(f):
+    """argsort(argsort(elements[..])) used in place (not bound to a name) is given a synthetic name, so that the typing
+    sees it as an unsort index: returns (copy of f with the names, {name: (call node, elements slice)})"""
+    import copy
+    f2 = copy.deepcopy(f)
+    anon = {}
+
+    class T(ast.NodeTransformer):
+        def visit_Assign(self, node):
+            v = node.value
+            if len(node.targets) == 1 and isinstance(node.targets[0], ast.Name) and isinstance(v, ast.Call) and U.call_name(v) == 'np.argsort':
+                return node
+            return self.generic_visit(node)
+
+        def visit_Call(self, node):
+            self.generic_visit(node)
+            if U.call_name(node) == 'np.argsort' and node.args and isinstance(node.args[0], ast.Call) and U.call_name(node.args[0]) == 'np.argsort' \
+                    and node.args[0].args and _elements_slice(node.args[0].args[0]) is not None:
+                nm = f'__unsort{len(anon)}'
+                anon[nm] = (node, _elements_slice(node.args[0].args[0]))
+                return ast.copy_location(ast.Name(id=nm, ctx=ast.Load()), node)
+            return node
+    T().visit(f2)
+    return f2, anon
+
+
 def r111(repo, ctx):
     n_sites = 0
     for path in SITE_FILES:
         for q, f in repo.functions(path):
+            f, anon = _hoist_anonymous_unsorts(f)
             sorts, unsorts = {}, {}
+            for nm, (node, sl_) in anon.items():
+                sorts[f'<sort of {nm}>'] = (node, sl_)
+                unsorts[nm] = (node, f'<sort of {nm}>')
             for st in U.walk_no_nested(f):
                 if isinstance(st, ast.Assign) and isinstance(st.targets[0], ast.Name) and isinstance(st.value, ast.Call) and U.call_name(st.value) == 'np.argsort' and st.value.args:
                     a = st.value.args[0]
